@@ -19,7 +19,7 @@ RULE = (
     "stochastic transitions with shuffled dependency lists; colliding parameter names), solved by "
     "lcm and by an independent NumPy Bellman recursion, compared entry by entry through the "
     "documented layout (tolerance 1e-9 relative to max(1,|V|), -inf pattern of the last period "
-    "exact, jit=False vs jit=True 1e-12 in 10% of cases; in another 10% a twin model with the same names but other table contents is solved first in the same process). Unsupported or knife-edge models are "
+    "exact, jit=False vs jit=True 1e-9 (the tolerance of the value comparison) in 10% of cases; in another 10% a twin model with the same names but other table contents is solved first in the same process). Unsupported or knife-edge models are "
     "skipped (rejected, they do not use up budget). A case is non-trivial when T>=2 and (a filter "
     "or constraint removes some but not all choices of some state, or a next continuous state is "
     "strictly between nodes or outside a linear grid, or a stochastic row is non-degenerate); "
@@ -266,7 +266,7 @@ def check(case):
                 msgs.append(f"t={t}: jit=False shape {b.shape} != jit=True shape {a.shape}")
             else:
                 fin = np.isfinite(a) & np.isfinite(b)
-                if not np.array_equal(np.isfinite(a), np.isfinite(b)) or not close(a[fin], b[fin], 1e-12).all():
+                if not np.array_equal(np.isfinite(a), np.isfinite(b)) or not close(a[fin], b[fin], TOL).all():
                     msgs.append(f"t={t}: jit=False result differs from jit=True")
     if msgs:
         kind = "shape" if any("shape" in m for m in msgs) else "value"
